@@ -101,6 +101,11 @@ SuccessIsFixpoint(e) ==
      /\ e.after.repair.outside = << >>
 FailureKeepsOrRestores(e) ==
   (IsRepair(e) /\ e.res.err # "") => \A f \in NameSetE(e) : e.post[f] = e.pre[f] \/ e.post[f] = e.prot[f]
+\* ... and as a statement about the set as a whole: giving up for lack of recovery blocks loses no slice that
+\* occurred somewhere before (seeded change R15-T14: a file rewritten with its original held the only copy of
+\* another file's slices)
+FailureLosesNoSlice(e) ==
+  (IsRepair(e) /\ e.res.err = "notenough") => OccurringE(e, e.pre) \subseteq OccurringE(e, e.post)
 
 \* the observer in the harness (used alone on big inputs) must agree with TLC's own truth here
 ObserverAgrees(e) ==
@@ -126,6 +131,7 @@ Clauses(e) ==
      << "C14.success_is_fixpoint", SuccessIsFixpoint(e) >>,
      << "C14.success_converges_to_original", IsRepair(e) => OkMeansRestored(e) >>,
      << "C14.failure_keeps_or_restores", FailureKeepsOrRestores(e) >>,
+     << "C14.failure_loses_no_slice", FailureLosesNoSlice(e) >>,
      << "C14.verify_pure", VerifyPure(e) >>,
      << "C16.survivors_counted", Complete(e) >>,
      << "C16.repair_uses_survivors", IsRepair(e) => WithinCapacity(e) >>,
